@@ -358,9 +358,9 @@ DOC = {
         level='TokenStream.tla states losslessness (values concatenate to the input, exactly one empty end-of-input marker at the end, no '
               'other empty token). Every input up to the bound over each tokenizer\'s alphabet of state-selecting characters, a deeper '
               'enumeration over the characters with push-back paths, and random/mutated longer inputs are tokenized by the four real '
-              'tokenizers with all options off; TLC evaluates the predicate on every recorded stream (TokenStreamTrace, Check = C04).',
+              'tokenizers with all options off; TLC evaluates the predicate on every recorded stream (TokenStreamTrace, Check = C04). RefLexer.tla contains reference lexers of the generic and expression tokenizers and the option post-processing as functions; LexerMC.tla model-checks the lossless, option and position predicates on them for every input up to the bound, and every real option-free stream is compared with the reference lexer (differences are reported as SPEC-DRIFT, currently none).',
         note='Trusted: TLC, Json module, recorder. Exhaustive only up to the stated length over the listed alphabets; longer inputs sampled.',
-        technique='TLA+ predicate spec (TokenStream) + TLC trace validation of exhaustive small-alphabet and random inputs',
+        technique='TLA+ predicate spec (TokenStream) + TLC trace validation of exhaustive small-alphabet and random inputs; TLC design-level check LexerMC on the reference lexers',
     ),
     'C15': dict(
         level='TokenStream.tla states the option relation: an order-preserving alignment of the stream under an option set into the '
@@ -368,19 +368,19 @@ DOC = {
               'to its base token after the enabled rewrites (merge, unify, QuoteCodec.Decode), plus the "option on" clauses (no Unknown/'
               'Comment/Eof token, no two adjacent whitespace tokens, single-space whitespace, Number type). The four real tokenizers are '
               'run with options off and under 16 covering option sets (quick) / all 128 (thorough) over all inputs up to the bound and '
-              'random multi-line inputs; TLC evaluates the relation on every pair of streams (TokenStreamTrace, Check = C15).',
+              'random multi-line inputs; TLC evaluates the relation on every pair of streams (TokenStreamTrace, Check = C15). RefLexer.tla contains reference lexers of the generic and expression tokenizers and the option post-processing as functions; LexerMC.tla model-checks the lossless, option and position predicates on them for every input up to the bound, and every real option-free stream is compared with the reference lexer (differences are reported as SPEC-DRIFT, currently none).',
         note='Trusted: TLC, Json module, recorder. Which whitespace tokens skip-whitespaces removes is left open (statement). A run that '
              'returns no stream under options although the option-free run does counts as a rejection.',
-        technique='TLA+ predicate spec (TokenStream.OptionFails, exists-alignment) + TLC trace validation over option sets x inputs',
+        technique='TLA+ predicate spec (TokenStream.OptionFails, exists-alignment) + TLC trace validation over option sets x inputs; TLC design-level check LexerMC on the reference lexers and TokenizerLoopMC',
     ),
     'C12': dict(
         level='TokenStream.tla states the position clause on top of the option alignment: a kept token reports LC(input, offset+1) - the '
               'forward-scan coordinates (ScanLC, the same operator that specifies the scanner in C11) of its first character, offsets '
               'taken from the cumulative lengths of the option-free stream - and the end-of-input token one column past the end. Same '
-              'drivers as C15 (four tokenizers x option sets x exhaustive small and random multi-line inputs with every line-break style).',
+              'drivers as C15 (four tokenizers x option sets x exhaustive small and random multi-line inputs with every line-break style). RefLexer.tla contains reference lexers of the generic and expression tokenizers and the option post-processing as functions; LexerMC.tla model-checks the lossless, option and position predicates on them for every input up to the bound, and every real option-free stream is compared with the reference lexer (differences are reported as SPEC-DRIFT, currently none).',
         note='Trusted: TLC, Json module, recorder. Cases whose option-free stream is not lossless (C04) or not alignable (C15) are not '
              'judged here. Positions inside error messages are not checked.',
-        technique='TLA+ predicate spec (TokenStream.PositionFails over ScanLC.LC) + TLC trace validation over option sets x inputs',
+        technique='TLA+ predicate spec (TokenStream.PositionFails over ScanLC.LC) + TLC trace validation over option sets x inputs; TLC design-level check LexerMC on the reference lexers',
     ),
     'C14': dict(
         level='QuoteCodec.tla defines Encode/Decode of the generic and the doubled-quote (expression, CSV) states and ReadQuoted; '
@@ -410,10 +410,10 @@ DOC = {
               'independent of the parser\'s control flow. The real ExpressionParser receives every token sequence up to the bound over a '
               'representative vocabulary and the full vocabulary (ParseTokens, and ParseString on the rendered text with the lexer\'s '
               'actual output as the judged sequence) plus token-level mutations of generated sentences; ExprParseTrace.tla checks '
-              'accepted <=> RefParse # Rej, compiled program = RefParse, rejection carries an error code, a panic is neither.',
+              'accepted <=> RefParse # Rej, compiled program = RefParse, rejection carries an error code, a panic is neither. ExprParserImpl.tla is a branch-by-branch model of the Go parser (token index, multi-token matcher, argument loop, index sub-parser; variant "orig" reproduces the three defects found); ExprGrammarMC.tla checks ImplParse = RefParse for every token string up to the bound (137 561 strings of length <= 4 in the quick tier).',
         note='Trusted: TLC, Json module, recorder. Error codes/messages and positions are not prescribed; empty input is outside the '
              'statement. The sign binds before the index (-a[1] = (-a)[1]) as the implementation does; the statement leaves that open.',
-        technique='TLA+ reference grammar (ExprGrammar.RefParse) + TLC trace validation of exhaustive token strings and mutated sentences',
+        technique='TLA+ reference grammar (ExprGrammar.RefParse) + TLC trace validation of exhaustive token strings and mutated sentences; TLC refinement check ExprGrammarMC (ExprParserImpl vs RefParse)',
     ),
     'C01': dict(
         level='ExprEval.tla defines the direct evaluation of a syntax tree as the sequence of variant-operation and function applications '
@@ -423,11 +423,11 @@ DOC = {
               'random trees of any depth; minimal, full and random parenthesisation with redundant +, random spacing, comments, keyword '
               'case). ExprEvalTrace.tla checks that the emitted tokens denote the tree (generator validation), that the recorded '
               'applications equal Wire(tree) and that the result is the root\'s value; a second event kind evaluates two renderings of one '
-              'tree with the real operations and random values of every type and requires equal results.',
+              'tree with the real operations and random values of every type and requires equal results. ExprGrammarMC.tla additionally model-checks, for every token string up to the bound, that the implementation-shaped parser model ExprParserImpl agrees with the reference grammar and that parenthesising a sentence does not change its program.',
         note='Trusted: TLC, Json module, the recording manager (pointer identity of operands), the generator only as far as TLC validates '
              'it (RefParse(tokens) = PostOrder(tree)). Operator semantics are C06\'s subject and deliberately uninterpreted here; LIKE has no '
              'variant operation and must yield an error. A lexer disagreement is C13\'s subject and skipped here.',
-        technique='TLA+ evaluation-wiring spec (ExprEval.Wire) + TLC trace validation of the real calculator instrumented through its public operation/function interfaces',
+        technique='TLA+ evaluation-wiring spec (ExprEval.Wire) + TLC trace validation of the real calculator instrumented through its public operation/function interfaces; TLC model check ExprGrammarMC',
     ),
     'C10': dict(
         level='Mustache.tla gives the reference semantics over templates as lexeme sequences: a three-valued recogniser MParse (well '
@@ -436,11 +436,11 @@ DOC = {
               'with random well-formed templates of any depth in every spelling (#, #if, ^, #unless, close by name, /if, /unless, double '
               'and triple braces, inner spacing) x random variable maps with arbitrary letter case and Unicode values, all small templates '
               'x four maps, every lexeme string up to the bound over the 12-lexeme alphabet, and lexeme-level mutations; MustacheTrace.tla '
-              'checks accept/reject against MParse and the rendering against Render.',
+              'checks accept/reject against MParse and the rendering against Render. MustacheImpl.tla models the tokenizer modes, the lexical state machine and the section matcher of the Go front end; MustacheMC.tla checks for every lexeme string up to the bound that it accepts what MParse says must be accepted and rejects what must be rejected (variant "orig": comment tags end in the INTERNAL error branch).',
         note='Trusted: TLC, Json module, recorder, and the generator only as far as TLC validates it (well-formed cases must parse as such '
              'in the specification). Left open: leading/trailing whitespace of the template (trimmed by the engine, avoided by the '
              'generator), case-insensitively colliding keys, closing by a name differing only in case, quoted strings inside tags.',
-        technique='TLA+ reference semantics (Mustache.MParse/Render) + TLC trace validation of generated templates x variable maps and exhaustive lexeme strings',
+        technique='TLA+ reference semantics (Mustache.MParse/Render) + TLC trace validation of generated templates x variable maps and exhaustive lexeme strings; TLC check MustacheMC (MustacheImpl vs MParse)',
     ),
     'C18': dict(
         level='Three trace specifications over one registry entry. ExprNamesTrace.tla (with ExprEval\'s trees): reported names = identifiers in '
@@ -472,10 +472,10 @@ DOC = {
               're-cut them). Lexeme sequences (all sequences of <= 3 over class representatives plus every multi-character symbol and every '
               'keyword spelling; random sequences of any length with random Unicode payloads) are written out and tokenized by the real '
               'tokenizers; LexerTrace.tla first validates the sequence itself (well-formedness and separability - generator validation) and '
-              'then requires the token list to be exactly the lexemes with the types of their classes plus the end-of-input marker.',
+              'then requires the token list to be exactly the lexemes with the types of their classes plus the end-of-input marker. LexemeMC.tla model-checks that the two descriptions of the lexical grammar in the specification agree: every separable sequence of up to three pool lexemes is tokenized back by the reference lexer RefLexer into exactly those lexemes.',
         note='Trusted: TLC, Json module, recorder. CanAbut is deliberately conservative (a separator is inserted whenever merging is '
              'conceivable); hexadecimal numbers are not produced by either tokenizer and not generated.',
-        technique='TLA+ lexical grammar (Lexer.WellFormed/CanAbut/TypeOf) + TLC trace validation of generated lexeme sequences on the real tokenizers',
+        technique='TLA+ lexical grammar (Lexer.WellFormed/CanAbut/TypeOf) + TLC trace validation of generated lexeme sequences on the real tokenizers; TLC design-level check LexemeMC',
     ),
     'C20': dict(
         level='VariantHeap.tla is the value model: a variant slot holds <<type, payload>>, an array payload is the variant\'s own sequence of '
@@ -498,11 +498,11 @@ DOC = {
               'code point; bitwise operators by bit recursion). Both real managers are called on every ordered pair of a boundary pool '
               '(about 68 values of all 11 types incl. extremes, NaN/Inf, empty string) for all 19 operators, plus comparison-consistency, '
               'algebraic-law (add/sub, xor/xor, div/mod identity, double negation, commutativity - these reach the int64 extremes through '
-              'opaque payload strings), membership and indexing events; VariantOpsTrace.tla classifies every recorded outcome.',
+              'opaque payload strings), membership and indexing events; VariantOpsTrace.tla classifies every recorded outcome. VariantOpsMC.tla model-checks the oracle itself: the comparison-consistency, algebraic and division laws on the exact small-value model and the inclusion of the type-safe conversion matrix in the type-unsafe one.',
         note='Trusted: TLC, Json module, recorder (classification of a value as exactly modelled). Not computed by the model: results of '
              'overflow and of inexact floating-point operations (laws only), shifts by >= the word size, which error code is used, how '
              'Object/Array values are rendered when concatenated to a string, Pow with a non-numeric second operand.',
-        technique='TLA+ operator/conversion value model (VariantOps) + TLC trace validation of all operator x operand-pair cells on both managers',
+        technique='TLA+ operator/conversion value model (VariantOps) + TLC trace validation of all operator x operand-pair cells on both managers; TLC check of the value model VariantOpsMC',
     ),
     'C07': dict(
         level='VariantOps.tla holds the conversion matrix of both managers (type-safe: exactly the six numeric widenings plus identity/Object/Null '
@@ -510,10 +510,10 @@ DOC = {
               'the exactly modelled domain (truncation, Boolean <-> 0/1, TimeSpan in milliseconds, DateTime in Unix seconds, decimal text); '
               'type-safe success => same result as type-unsafe; the round trips the statement lists, judged on canonical payload strings so '
               'that the int64 extremes and the 2^53 / 2^24 boundaries are in scope. Both real managers convert every value of a boundary '
-              'pool plus seeded random values to all 11 targets, and every two-step chain value -> via -> original type.',
+              'pool plus seeded random values to all 11 targets, and every two-step chain value -> via -> original type. VariantOpsMC.tla model-checks the oracle itself: the comparison-consistency, algebraic and division laws on the exact small-value model and the inclusion of the type-safe conversion matrix in the type-unsafe one.',
         note='Trusted: TLC, Json module, recorder (flags |v| <= 2^53 and "has no fraction" are facts about the input computed by the recorder). '
              'Left open: the text produced for Float/Double/DateTime/TimeSpan -> String, conversions of unparsable strings.',
-        technique='TLA+ conversion matrix and formulas (VariantOps/VariantConvTrace) + TLC trace validation of value x target x manager and of two-step chains',
+        technique='TLA+ conversion matrix and formulas (VariantOps/VariantConvTrace) + TLC trace validation of value x target x manager and of two-step chains; TLC check of the value model VariantOpsMC',
     ),
     'C08': dict(
         level='FunctionsTrace.tla contains the reference semantics of the 37 default functions on the value model of VariantOps: arity sets, '
@@ -523,11 +523,11 @@ DOC = {
               'IEEE functions the result type, the conversion of the argument and exact values at anchor points. Every registered name is '
               'called in four letter cases with every argument count 0..8, targeted and boundary arguments, under both managers, directly '
               'and through an expression (results must agree); a nil result without error, a wrong arity that is not an error and an '
-              'inapplicable argument that is not an error are rejections.',
+              'inapplicable argument that is not an error are rejections. VariantOpsMC.tla model-checks the oracle itself: the comparison-consistency, algebraic and division laws on the exact small-value model and the inclusion of the type-safe conversion matrix in the type-unsafe one.',
         note='Trusted: TLC, Json module, recorder. Accuracy of the transcendental functions away from the anchor points is outside the model '
              '(only direct = via-expression is checked there); Sqr is checked as the alias of Sqrt it is registered as; Choose(0, ...), '
              'Empty("") and the seventh argument of Date are left open.',
-        technique='TLA+ reference semantics of the function library (FunctionsTrace) + TLC trace validation of name x spelling x argument-list x manager calls',
+        technique='TLA+ reference semantics of the function library (FunctionsTrace) + TLC trace validation of name x spelling x argument-list x manager calls; TLC check of the value model VariantOpsMC',
     ),
     'C03': dict(
         level='Outcome.tla states the protocol: every public call ends in a normal return, an evaluating call in exactly one of a non-nil '
@@ -536,11 +536,11 @@ DOC = {
               'function form over variables x 13 boundary assignments of every supported type (division by zero, out-of-range indexes and '
               'shifts, null operands, NaN/Inf, extremes, non-ASCII), every expression / template string up to the bound over the significant '
               'characters, brace structures, the four tokenizers under option sets, the three quote codecs, mutated and random inputs, '
-              'every operator and Convert on pairs of the boundary pool under both managers, and every function with 0..8 arguments.',
+              'every operator and Convert on pairs of the boundary pool under both managers, and every function with 0..8 arguments. TokenizerLoop.tla models the tokenizer main loop as micro-steps; TokenizerLoopMC checks with TLC that every call terminates (liveness under weak fairness) for all abstract inputs up to the bound x all 16 skip-option sets - the variant "orig" (stale loop variable) has the non-progress cycle found in the repository.',
         note='Trusted: TLC, Json module, recorder (recover + 3 s watchdog as the observation of panic / non-termination). Documented '
              'precondition panics of configuration setters and of Variant.As* on the wrong type are API misuse, not untrusted input, and are '
              'not driven. Coverage-guided fuzzing is not used; inputs are exhaustive small alphabets plus seeded random/mutated strings.',
-        technique='TLA+ outcome protocol (Outcome) + TLC trace validation of exhaustive small and random inputs executed under recover and a watchdog',
+        technique='TLA+ outcome protocol (Outcome) + TLC trace validation of exhaustive small and random inputs executed under recover and a watchdog; TLC liveness check TokenizerLoopMC',
     ),
     'C19': dict(
         level='ConcurrentEval.tla models processes evaluating one compiled program with private stacks; TLC checks over all schedules of 2 and 3 '
